@@ -278,7 +278,8 @@ fn nested_string(t: &mut Tape) -> String {
     // deep chains: k nested scopes (mostly of one kind, so that per-kind scope stacks grow deep),
     // with a broken scope at the bottom or somewhere inside
     if t.chance(70) {
-        let k = 2 + t.choose(18);
+        // mostly up to 19 scopes; sometimes 20..79 (fixed-size or bit-packed scope stacks, indentation tables)
+        let k = if t.chance(200) { 2 + t.choose(18) } else { 20 + t.choose(60) };
         let kinds = [('(', ')'), ('<', '>'), ('{', '}')];
         let main = t.choose(2);
         let mut closers = vec![];
